@@ -50,6 +50,14 @@ theorem charge_changing_rules_are_invalid_for_a_reason :
     cannot arise from these tables. -/
 theorem abort_only_possible_at_first_entry : ∀ r ∈ allStdRules, abortOnlyFirst r = true := by decide +kernel
 
+/-- Every `M` atom of every rule is an `any_atoms` member: the overlap test of `__standardize` lets several matches of one rule
+    share the metal, so all ligands of one kind on a metal centre are rewritten by a single call (what the idempotence of
+    `standardize()` on multi-ligand complexes rests on; the complexes themselves are run by the harness, `multi:` / `mix:`). -/
+theorem metal_atoms_are_shareable : ∀ r ∈ allStdRules, metalsShareable r = true := by decide +kernel
+
+example : ∃ r ∈ metalRules, (r.atoms.any fun nq => nq.2.kind == .metal) = true ∧ (r.atomFix.any fun e => isMetalAtom r.toPattern e.1) = true := by
+  decide +kernel
+
 /-- `atom_fix`, `bonds_fix`, `any_atoms` only name atoms of the rule's own pattern (no `KeyError` in `mapping[n]`) -/
 theorem rule_names_are_pattern_atoms : ∀ r ∈ allStdRules, namesInPattern r = true := by decide +kernel
 
